@@ -469,6 +469,26 @@ Definition change_conn_state (m : mgr) (rates : list (addr * N)) (new_opt : list
   do r2 <- set_optimistic (fst r1) new_opt (snd r1);
   Ok (mkmgr (m_status m) (fst r2) (m_candidates m) (m_round m) (m_extracted m) (m_plens m), flips_to_map (snd r2)).
 
+(* ---- timeout_change_conn_state: the rotation timer's own wrapper ------------------------------ *)
+(* the rates it ranks by: what the peers reported (SyncStats) -- download rates once everything is owned, upload rates
+   before -- in the iteration order of the peer map (a HashMap in the code: any order; here the model's list order, and
+   the caller may pass any permutation); None while some peer has not reported both rates *)
+Definition timer_rates (m : mgr) : option (list (addr * N)) :=
+  let seeder := forallb is_have (m_status m) in
+  if forallb (fun kp => match p_drate (snd kp), p_urate (snd kp) with Some _, Some _ => true | _, _ => false end) (m_peers m)
+  then Some (map (fun kp => (fst kp, match (if seeder then p_drate (snd kp) else p_urate (snd kp)) with Some r => r | None => 0 end))
+                 (m_peers m))
+  else None.
+(* `order`: the rates in the order the code's iteration yields them; `pick`: what new_optimistic_peers draws (used in
+   round 0 only).  The round advances first; nothing else happens while rates are missing; the broadcast is the map *)
+Definition timer_tick (m : mgr) (order : list (addr * N)) (pick : list addr) : result (mgr * option (list (addr * bool))) :=
+  let r := (m_round m + 1) mod MAX_OPTIMISTIC_ROUNDS in
+  let m1 := mkmgr (m_status m) (m_peers m) (m_candidates m) r (m_extracted m) (m_plens m) in
+  match timer_rates m with
+  | None => Ok (m1, None)
+  | Some _ => do x <- change_conn_state m1 order (if r =? 0 then pick else []); Ok (fst x, Some (snd x))
+  end.
+
 (* ---- handle_tracker_cmd (TrackerResp): candidates and how many handlers are spawned ------- *)
 Fixpoint spawn_n (k : nat) (m : mgr) (acc : list spawn) : mgr * list spawn :=
   match k with
